@@ -17,7 +17,10 @@ its attempts met a holder, never on a free lock; cleanup_lockdir (a clean-up con
 file modification times run on the scheduler's clock) unlinks only files older than max_lock_time - after such a
 documented override two holders are counted, not reported; every raw write of the compact cache to a bundle happens
 while the bundle lock is held (run_bundle_scope) and so does every creation of a bundle file (two first writers of a new
-bundle, run_bundle_first_writers); injected faults (flock fails with ENOLCK, os.remove of unlock fails with EPERM; schedule
+bundle, run_bundle_first_writers); two worker processes with different string-hash salts that take the tile lock (TileLocker) of the same tile of the same
+cache exclude each other - they compute the same lock file (run_tile_lock_processes); cleanup_lockdir never examines or
+unlinks the slot files of a semaphore that shares the lock directory (corpus sem-cleanup-witness, semaphore systems with a
+clean-up contender); injected faults (flock fails with ENOLCK, os.remove of unlock fails with EPERM; schedule
 entries with choice >= 100, modelled by Lock.step_fault): lock() never returns without its flock, a contender that has
 returned from unlock() holds no flock on the file at the lock path.
 """
@@ -414,15 +417,39 @@ class Sched(object):
         names = sorted(os.listdir(d))
         present = os.path.basename(self.base) in names and os.path.isfile(self.base)
         entry['res'] = ('list', present)
-        if d != os.path.dirname(self.base) or [n for n in names if n != os.path.basename(self.base)]:
+        bn = os.path.basename(self.base)
+        if self.conf['kind'] == 'sem':
+            # the slot files of the semaphore (l.lck0, l.lck1 ...) share the lock directory with the tile locks
+            other = [n for n in names if not (n.startswith(bn) and n[len(bn):].isdigit())]
+        else:
+            other = [n for n in names if n != bn]
+        if d != os.path.dirname(self.base) or other:
             self.weird.append('listdir of %r -> %r' % (d, names))
         return names
+
+    def sem_file_touched(self, tid, what, path):
+        """cleanup_lockdir(suffix='.lck') has no business with the slot files of a SemLock (`<name>.lck<i>`): nothing ever
+        removes them, which is what keeps the semaphore bounded for holders of any age"""
+        if self.conf['kind'] != 'sem':
+            return False
+        holder = None
+        try:
+            holder = self.flock_holder.get(self.ino_ids.get(os.stat(path).st_ino, 777))
+        except OSError:
+            pass
+        self.oracle_fail.append(('cleanup-touches-semaphore-file',
+                                 'cleanup_lockdir(suffix=.lck, max_lock_time %s) of contender %d %s the semaphore slot file %s%s' % (
+                                     self.conf['contenders'][tid]['timeout'], tid, what, os.path.basename(path),
+                                     '' if holder is None else ' while contender %d holds the slot' % holder)))
+        return True
 
     def w_getmtime(self, path):
         entry = self.gate('mtime')
         if entry is None:
             return os.path.getmtime(path)
-        if self.slot_of(path) != 0:
+        if self.sem_file_touched(entry['pid'], 'examines', path):
+            pass
+        elif self.slot_of(path) != 0:
             self.weird.append('getmtime of %r' % (path,))
         c = self.cleaner[entry['pid']]
         try:
@@ -441,7 +468,8 @@ class Sched(object):
             return os.unlink(path)
         tid = entry['pid']
         c = self.cleaner[tid]
-        if self.slot_of(path) != 0 or c is None:
+        sem_file = self.sem_file_touched(tid, 'unlinks', path)
+        if not sem_file and (self.slot_of(path) != 0 or c is None):
             self.weird.append('unlink of %r' % (path,))
         # the contract of cleanup_lockdir: only files older than max_lock_time are removed
         if c is not None and (c['m'] is None or not c['m'] < c['expire']):
@@ -461,7 +489,8 @@ class Sched(object):
             raise
         entry['res'] = ('unlink', True)
         self.removes += 1
-        if c is not None and c['m'] is not None and c['m'] < c['expire']:
+        if c is not None and c['m'] is not None and c['m'] < c['expire'] and not sem_file:
+            # (the documented take-over of old locks is about `.lck` files; a semaphore has no such clause)
             self.override = True
 
     def free_slots(self, tid):
@@ -745,6 +774,9 @@ def gen_conf(rng, kind=None):
             cont.append({'n': n if rng.random() < 0.85 else rng.choice([1, 2, 3]), 'rm': False,
                          'timeout': rng.choice([0, 2, 4, 8, 30]),
                          'program': gen_program(rng, rng.choice([1, 2, 2, 3]), rng.random() < 0.5)})
+        if rng.random() < 0.25:
+            # the tile-lock clean-up shares the lock directory with the semaphore files (cache.lock_dir)
+            cont.append(cleaner(rng.choice([0, 3, 10]), rng.choice([1, 2, 3])))
     else:
         style = rng.choice(['rm', 'rm', 'rm', 'keep', 'mixed'])
         for _ in range(m):
@@ -1035,6 +1067,13 @@ def run(ctx):
             for e in trace:
                 if e.get('dt'):
                     obs.append('TTick %s' % zlit(e['dt']))
+                if (conf['kind'] == 'sem' and conf['contenders'][e['pid']].get('clean') and e['res'] is not None
+                        and (e['res'][0] == 'time' or e['res'] == ('list', False)) and not e['events']):
+                    # Lock.v: "the files of a SemLock end in a digit and do not match the suffix" - in a semaphore system a
+                    # clean-up pass is time.time(), os.listdir and nothing else (no step of the model); any further call of
+                    # it (getmtime, unlink) is handed to the model, which has no such step
+                    ctx.count('cleanup-passes-over-semaphore-files (calls: time, listdir only)', 1 if e['res'][0] == 'list' else 0)
+                    continue
                 obs.append('TObs %s' % obs_lit(e))
             if hang or s.weird:
                 obs.append('TObs ' + IMPOSSIBLE)
@@ -1045,7 +1084,126 @@ def run(ctx):
     ctx.corr_check('lock_trace', 'Lock', 'list pconf * list tobs', terms,
                    "fun c => ttrace_ok true (fst c) (snd c)", lambda i: descr[i], shard=150)
     run_bundle_scope(ctx)
+    run_tile_lock_processes(ctx)
 
+
+# ----------------------------------------------------------------------------- users of the lock: tile locks of two processes
+
+TILE_LOCK_CHILD = r'''
+import json, os, sys
+sys.path.insert(0, sys.argv[1])
+role, root, timeout = sys.argv[2], sys.argv[3], float(sys.argv[4])
+coord = tuple(json.loads(sys.argv[5]))
+out = {'ids': {}, 'files': {}, 'result': {}}
+def caches():
+    from mapproxy.cache.file import FileCache
+    from mapproxy.cache.compact import CompactCacheV1, CompactCacheV2
+    from mapproxy.cache.mbtiles import MBTilesCache, MBTilesLevelCache
+    yield 'file', lambda: FileCache(os.path.join(root, 'file'), 'png')
+    yield 'compact-v1', lambda: CompactCacheV1(os.path.join(root, 'cv1'))
+    yield 'compact-v2', lambda: CompactCacheV2(os.path.join(root, 'cv2'))
+    yield 'mbtiles', lambda: MBTilesCache(os.path.join(root, 'a.mbtiles'))
+    yield 'sqlite-levels', lambda: MBTilesLevelCache(os.path.join(root, 'levels'))
+    def gpkg():
+        from mapproxy.cache.geopackage import GeopackageCache
+        from mapproxy.grid import tile_grid
+        return GeopackageCache(os.path.join(root, 'a.gpkg'), tile_grid(3857), 'tiles')
+    yield 'geopackage', gpkg
+from mapproxy.cache.base import TileLocker
+from mapproxy.cache.tile import Tile
+from mapproxy.util.lock import LockTimeout
+held = []
+for name, make in caches():
+    try:
+        cache = make()
+        out['ids'][name] = cache.lock_cache_id
+        locker = TileLocker(os.path.join(root, 'tile_locks'), timeout, cache.lock_cache_id)
+        out['files'][name] = os.path.basename(locker.lock_filename(Tile(coord)))
+        lock = locker.lock(Tile(coord))
+        try:
+            lock.lock()
+            held.append(lock)
+            out['result'][name] = 'inside'
+        except LockTimeout:
+            out['result'][name] = 'timeout'
+    except Exception as ex:
+        out['result'][name] = 'raised ' + type(ex).__name__ + ': ' + str(ex)[:120]
+sys.stdout.write(json.dumps(out) + '\n')
+sys.stdout.flush()
+sys.stdin.readline()
+for lock in held:
+    lock.unlock()
+'''
+
+
+def run_tile_lock_processes(ctx):
+    """Two worker PROCESSES (own interpreters, different string-hash salts as with the default PYTHONHASHSEED=random) serve
+    the same caches with the same lock_dir.  Process A takes the tile lock of one tile of every cache kind (TileLocker of
+    cache/base.py with the cache's lock_cache_id) and stays inside; process B then tries the same tile with a short
+    lock_timeout.  Exclusion between processes exists only on one lock file: B must time out on every one, and both must
+    have computed the same lock file name.  Deterministic (fixed tile, fixed salts; the outcome does not depend on timing:
+    A is inside during the whole of B's attempt)."""
+    import subprocess
+    import sys
+    from common import REPO
+    root = ctx.tmpdir('tilelocks')
+    coord = [3, 4, 5]
+    procs = []
+    outs = {}
+    err = None
+    try:
+        for role, salt, timeout in (('A', '1', '5'), ('B', '2', '0.2')):
+            env = dict(os.environ, PYTHONHASHSEED=salt)
+            p = subprocess.Popen([sys.executable, '-c', TILE_LOCK_CHILD, REPO, role, root, timeout, json.dumps(coord)],
+                                 stdin=subprocess.PIPE, stdout=subprocess.PIPE, stderr=subprocess.PIPE, env=env, text=True)
+            procs.append(p)
+            line = p.stdout.readline()
+            try:
+                outs[role] = json.loads(line)
+            except ValueError:
+                err = 'process %s printed %r' % (role, line[:200])
+                break
+    except Exception as ex:  # noqa
+        err = '%s: %s' % (type(ex).__name__, str(ex)[:200])
+    finally:
+        for p in reversed(procs):
+            try:
+                so, se = p.communicate('\n', timeout=60)
+                if err and se:
+                    err += ' / stderr: ' + se.strip()[-300:]
+            except Exception:  # noqa
+                p.kill()
+    if err:
+        ctx.problem('harness', 'tile locks of two processes: ' + err)
+        return
+    a, b = outs['A'], outs['B']
+    for name in sorted(a['result']):
+        ra, rb = a['result'].get(name), b['result'].get(name)
+        both = ra == 'inside' and rb == 'inside'
+        ctx.case(('tile-lock-two-processes', name, ra, rb), ra == 'inside' and rb == 'timeout',
+                 {'cache': name, 'tile': coord, 'process_A': ra, 'process_B': rb, 'lock_file_A': a['files'].get(name),
+                  'lock_file_B': b['files'].get(name)})
+        ctx.count('origin=tile-lock-two-processes')
+        ctx.count('tile-lock-two-processes: A inside, B timed out', 1 if (ra == 'inside' and rb == 'timeout') else 0)
+        rep = {'origin': 'tile-lock-two-processes', 'cache': name, 'tile': coord, 'PYTHONHASHSEED': {'A': 1, 'B': 2},
+               'schedule': 'process A: TileLocker(lock_dir, 5, cache.lock_cache_id).lock(Tile(coord)).lock(), stays inside; '
+                           'process B: the same with lock_timeout 0.2',
+               'process_A': {'lock_cache_id': a['ids'].get(name), 'lock_file': a['files'].get(name), 'result': ra},
+               'process_B': {'lock_cache_id': b['ids'].get(name), 'lock_file': b['files'].get(name), 'result': rb}}
+        if both:
+            ctx.fail('too-many-inside,tile-lock-of-two-processes',
+                     '%s cache: process B entered the locked section of tile %r while process A was inside: A locked %s, B locked %s'
+                     % (name, tuple(coord), a['files'].get(name), b['files'].get(name)), rep)
+        elif ra != 'inside' or rb != 'timeout':
+            if (ra or '').startswith('raised') and ra == rb and name == 'geopackage':
+                ctx.count('tile-lock-two-processes: cache kind not constructible here (%s)' % name)
+            else:
+                ctx.fail('tile-lock-of-two-processes-unexpected', '%s cache: process A: %s, process B: %s (expected inside / timeout)'
+                         % (name, ra, rb), rep)
+        elif a['files'].get(name) != b['files'].get(name):
+            ctx.fail('tile-lock-file-name-differs-between-processes',
+                     '%s cache: the lock file of tile %r is %s in process A and %s in process B'
+                     % (name, tuple(coord), a['files'].get(name), b['files'].get(name)), rep)
 
 
 # ----------------------------------------------------------------------------- users of the lock: compact bundles
